@@ -237,6 +237,9 @@ impl Check for Fungible {
     fn components(&self) -> serde_json::Value {
         serde_json::json!({"real": ["stellar_tokens::fungible::{Base::*, burnable}", "soroban host (storage, auth, TTL)"], "stub": ["Wallet (accept-all signature check; invocation-tree matching stays real)"]})
     }
+    fn clock_step(&self, n: u32) -> Option<Step> {
+        Some(Step::Advance { n })
+    }
     fn dup_ok(&self, _s: &Step) -> bool {
         true
     }
